@@ -2,7 +2,7 @@
    table the writer built ([tbl_ok], part of the per-node obligation). *)
 From Verif Require Import Base.Prelude Model.Tree Model.Spec Model.VM Model.Writer Gen.RunnerGen
   Proofs.SpecProofs Proofs.SpecBoundsProofs Proofs.MaskProofs
-  Proofs.VMU Proofs.VMUOps Proofs.VMUOps2 Proofs.VMUOps5 Proofs.CompileBase Proofs.CompileDefs.
+  Proofs.VMU Proofs.VMUOps Proofs.VMUOps2 Proofs.VMUOps6 Proofs.VMUOps5 Proofs.CompileBase Proofs.CompileDefs.
 From Coq Require Import Relations ZifyBool.
 
 Section CC.
